@@ -6,7 +6,7 @@ from . import gencrate as GC
 from . import datacases as D
 from . import abichecks as A
 
-THEOREMS = ["C09_flex", "C09_flex_spill", "C09_flex_inline_bound", "C09_transmit"]
+THEOREMS = ["C09_flex", "C09_flex_spill", "C09_flex_inline_bound", "C09_transmit", "C09_any_number_of_methods"]
 SCENARIOS = ["prims", "frame60", "frame61", "frame68", "nested_tuples", "tuple_array", "rec_by_val", "rec_by_ref", "pod_by_ref", "strs",
              "slices", "res", "opt", "call_fn", "call_fnmut", "take_boxed_fn", "take_boxed_trait", "make_counter", "make_closure", "mutate", "many_args"]
 
@@ -51,6 +51,16 @@ def run(chk, tier, seed):
         if a != b:
             chk.violations.append(("calling through the ABI connection is observably different from calling the implementation directly (scenario %s: arguments seen, return value, callback order or drop counts)" % s,
                                    {"harness_line": lines[i], "direct": a[:600], "abi": b[:600]}))
+    # any number of methods: a 70-method interface, each witness in its own process (a panic during connection
+    # creation poisons the process-wide template cache)
+    for k in (0, 63, 64, 69):
+        o = C.run_harness(binary, ["m abi_many %d" % k]).get("m", "MISSING")
+        chk.distinct.add(("many", k))
+        chk.add_eval(1)
+        p = o.split(" || ")
+        if len(p) != 3 or p[0].replace("DIRECT ", "") != p[1].replace("ABI ", "") or p[2] != "AFTER ok":
+            chk.violations.append(("method m%d of an exported trait with 70 methods: calling through an ABI connection differs from the direct call, or later connections can no longer be created (%s)" % (k, o[:160]),
+                                   {"harness_line": "m abi_many %d" % k, "observed": o[:300]}))
     for k, (f, j, meth, idx) in meta.items():
         a, d = obs.get("ga%d" % k, "MISSING"), obs.get("gd%d" % k, "MISSING")
         chk.distinct.add(("gen", f, j, meth))
